@@ -3,8 +3,8 @@ action schemas (as S-expression trees), rendered to PDDL text.
 
 Universe U (DESIGN section 2.4):
   types      t1 t2 - object   t3 - t1            constants  k - t1   (present / absent)
-  predicates (p ?a - t1) (q ?a - t1 ?b - t1) (r) (s ?a - t2)
-  functions  (f ?a - t1) (g) (h ?a - t1 ?b - t1)
+  predicates (p ?x - t1) (q ?x - t1 ?y - t1) (r) (s ?x - t2) (m ?a - t3 ?a2 - t1)
+  functions  (f ?x - t1) (g) (h ?x - t1 ?y - t1)
   objects    o1 o2 - t1   o3 - t3   u1 - t2
 """
 import itertools
@@ -14,8 +14,12 @@ from typing import List
 from ref.sexpr import render
 
 TYPES = ["t1", "t2", "-", "object", "t3", "-", "t1"]
-PREDICATES = [["p", "?a", "-", "t1"], ["q", "?a", "-", "t1", "?b", "-", "t1"], ["r"], ["s", "?a", "-", "t2"]]
-FUNCTIONS = [["f", "?a", "-", "t1"], ["g"], ["h", "?a", "-", "t1", "?b", "-", "t1"]]
+# The declared parameter names of p, q, f, h coincide with the action parameter names ?x ?y on purpose (a literal such as
+# (q ?y ?x) then permutes the declaration's own names); m has two differently typed parameters whose names are a prefix of
+# one another (?a, ?a2) and is used by the state / problem / trajectory checks only.
+PREDICATES = [["p", "?x", "-", "t1"], ["q", "?x", "-", "t1", "?y", "-", "t1"], ["r"], ["s", "?x", "-", "t2"],
+              ["m", "?a", "-", "t3", "?a2", "-", "t1"]]
+FUNCTIONS = [["f", "?x", "-", "t1"], ["g"], ["h", "?x", "-", "t1", "?y", "-", "t1"]]
 OBJECTS = {"o1": "t1", "o2": "t1", "o3": "t3", "u1": "t2"}
 CONSTANTS = {"k": "t1"}
 
@@ -374,6 +378,13 @@ def core_preconditions():
         ["forall", ["?z", "-", "t1"], ["and", ["not", ["q", "?z", "?x"]], [">=", ["f", "?z"], "0"]]],
         ["forall", ["?z", "-", "t1"], ["and", [">", ["h", "?x", "?z"], ["g"]]]],
         ["forall", ["?z", "-", "t2"], ["and", ["s", "?z"]]],
+        # object (in)equalities between the quantified variable and a parameter ("all others"), alone and next to a nested junction
+        ["forall", ["?z", "-", "t1"], ["or", ["=", "?z", "?x"], ["p", "?z"]]],
+        ["forall", ["?z", "-", "t1"], ["or", ["=", "?z", "?x"], ["and", ["p", "?z"], ["not", ["q", "?z", "?y"]]]]],
+        ["forall", ["?z", "-", "t1"], ["and", ["not", ["=", "?z", "?y"]], ["or", ["p", "?z"], ["q", "?z", "?x"]]]],
+        ["forall", ["?z", "-", "t3"], ["and", ["not", ["=", "?z", "?x"]]]],
+        ["forall", ["?z", "-", "t1"], ["and", ["not", ["=", "?z", "?x"]]]],
+        ["forall", ["?z", "-", "t1"], ["or", ["=", "?z", "?x"], ["=", "?z", "?y"]]],
     ]
     for fa in foralls:
         out.append(("P2", ["and", fa]))
@@ -434,6 +445,9 @@ def core_effects():
     for fa in foralls:
         out.append(("P2", ["and", fa]))
         out.append(("P2", ["and", ["r"], fa]))
+    # two quantified effects that reuse the variable name with different types
+    out.append(("P2", ["and", foralls[1], foralls[5]]))
+    out.append(("P2", ["and", foralls[5], foralls[0], ["p", "?y"]]))
     out.append(("P2", ["and", foralls[0], whens[0]]))
     out.append(("P2", ["and", foralls[0], foralls[3]]))
     out.append(("P0", ["and"]))
